@@ -1618,6 +1618,22 @@ class IndexHierarchy(IndexBase):
                         levels_stack.extend(level.targets) #type: ignore
                 if levels.targets is None:  # if no targets, at the root
                     break
+                # lengths have changed: offsets, relative to the parent, must be recalculated
+                levels_stack = [levels]
+                while levels_stack:
+                    level = levels_stack.pop()
+                    level._length = None
+                    if level.targets is not None:
+                        levels_stack.extend(level.targets)
+                levels_stack = [levels]
+                while levels_stack:
+                    level = levels_stack.pop()
+                    if level.targets is not None:
+                        offset = 0
+                        for target in level.targets:
+                            target.offset = offset
+                            offset += target.__len__()
+                        levels_stack.extend(level.targets)
 
             if levels.targets is None: # fall back to 1D index
                 return levels.index.rename(name)
@@ -1637,10 +1653,15 @@ class IndexHierarchy(IndexBase):
             for _ in range(count):
                 targets = []
                 labels = []
+                offset = 0
                 for target in levels.targets: #type: ignore
                     labels.extend(target.index)
                     if target.targets is not None:
-                        targets.extend(target.targets)
+                        for t in target.targets:
+                            # offsets were relative to the parent that is being removed
+                            t.offset = offset
+                            offset += t.__len__()
+                            targets.append(t)
                 index = levels.index.__class__(labels)
                 if not targets:
                     return index.rename(name)
